@@ -3,6 +3,33 @@ import os, subprocess
 from . import rtprop, flexrun
 
 THEOREMS = ['FlexVerif.validate_sound', 'FlexVerif.specCands_selects']
+# the REJECT machinery itself, translated from a scanner generated in this run
+THEOREMS += ['FlexVerif.C07Reject.' + t for t in ('findAction_shape', 'reject_shape', 'here_cons', 'remaining_break', 'find_loop', 'findRule_run',
+                                                  'findAction_spec', 'reject_spec', 'accept_cases', 'here_eq_offers', 'remaining_all',
+                                                  'wf_of_accept', 'first_offer')]
+
+
+def regen_reject():
+    """translate the code at yy_find_action / find_rule and the macro yyreject() of a scanner flex generates now into
+    lean/FlexVerif/Gen/Reject.lean"""
+    import fcntl
+    from . import gen_reject, common
+    flex, src = flexrun.build_flex()
+    try:
+        body, info = gen_reject.generate(flex, flexrun.scratch_root())
+    except gen_reject.TranslateError as e:
+        return None, str(e)
+    path = os.path.join(common.LEAN_DIR, 'FlexVerif', 'Gen', 'Reject.lean')
+    lock = open(os.path.join(common.LEAN_DIR, '.build.lock'), 'w')
+    fcntl.flock(lock, fcntl.LOCK_EX)
+    try:
+        old = open(path).read() if os.path.exists(path) else ''
+        if old != body:
+            open(path, 'w').write(body)
+    finally:
+        fcntl.flock(lock, fcntl.LOCK_UN)
+        lock.close()
+    return info, None
 
 SPEC = ('%%option noyywrap\n%%%%\n'
         'a+\t{ printf("1:%%s\\n", yytext); %s; }\n'
@@ -39,9 +66,12 @@ def detection_probe(ctx, results):
 
 
 def run(ctx):
+    info, err = regen_reject()
+    if err:
+        ctx.violation('translator of the REJECT machinery gave up: ' + err, {'error': err}, no_input=True)
     q1, q2, q3 = {'quick': (64, 48, 32), 'thorough': (600, 400, 200)}[ctx.tier]
     plan = [('reject', q1, 8)]
-    return rtprop.run(ctx, THEOREMS, plan, 'exploration',
-                      "REJECT: actions reject (optionally after yybegin) and the sequence of (rule, text) alternatives visited must be the specification's (length descending, rule ascending) order; probe: REJECT / yyreject() are detected without %option reject and refused with -Cf/-CF" + '. Kernel-checked theorems about the abstract scanner (listed under obligations) + differential '
+    return rtprop.run(ctx, THEOREMS, plan, 'proof',
+                      "the REJECT machinery (the code from yy_find_action to YY_DO_BEFORE_ACTION with the find_rule loop, and the macro yyreject()) is translated from a scanner flex generates in this run (Gen/Reject.lean) and proved, for every state stack and all tables whose entries are in range, to offer the alternatives in this order: for the longest prefix the rules of its state's yy_acclist slice in table order, then the same for each shorter prefix, with yy_cp/yy_full_match the end of that prefix and no read out of bounds (C07Reject.findAction_spec, reject_spec, remaining_all, first_offer); the slices are the decoder's rule lists, which the validator proves equal to the specification's. REJECT: actions reject (optionally after yybegin) and the sequence of (rule, text) alternatives visited must be the specification's (length descending, rule ascending) order; probe: REJECT / yyreject() are detected without %option reject and refused with -Cf/-CF" + '. Kernel-checked theorems about the abstract scanner (listed under obligations) + differential '
                       'correspondence of the real generated scanner (ASan/UBSan build) with that model on generated cases.',
                       post=detection_probe)
